@@ -141,7 +141,12 @@ def run(chk):
         if len(g) != 1:
             return False, "get must read the OnceLock once", [], b.span
         r = b.origin(0)
-        if not (r[0] == "call" and r[1].callee.get("name") in ("unwrap_or", "unwrap_or_else", "map_or", "map_or_else")):
+        chain = r[0] == "call" and r[1].callee.get("name") in ("unwrap_or", "unwrap_or_else", "map_or", "map_or_else")
+        # or the same thing spelled as a match: one alternative is the constant, every other one derives from the OnceLock::get payload
+        matched = r[0] == "phi" and len(r[1]) >= 2 and all(
+            (x[0] == "const" and str((x[1].get("def") or (x[1].get("v") or {}).get("static") or "")).endswith("EMPTY_AMBIENT_RUNTIME")) or
+            common.has_root(x, "callsite", g[0].bb) for x in r[1])
+        if not (chain or matched):
             return False, "get returns %s" % o_str(r), [], b.span
         consts = [o for o in common.roots(r) if o[0] == "const"]
         if not any(str(v).endswith("EMPTY_AMBIENT_RUNTIME") for k, v in consts):
